@@ -857,38 +857,78 @@ var rR20s = RuleRef{Name: "R20s", Doc: "database selection: the selection store 
 		c.Undecided("R20s", "anchor (*Manager).Select")
 		return
 	}
-	p := c.newProver(sel)
 	nStore := 0
-	for _, b := range sel.Blocks {
-		for _, in := range b.Instrs {
-			st, ok := in.(*ssa.Store)
-			if !ok {
-				continue
+	// the selection store: wherever (in Select or a helper it delegates to) an element of a database table is stored
+	// into the connection state
+	isManagerTable := func(fn *ssa.Function, base ssa.Value) bool {
+		if strings.HasSuffix(canon(base), ".DBs") {
+			return true
+		}
+		prm, ok := base.(*ssa.Parameter)
+		if !ok {
+			return false
+		}
+		pi := -1
+		for i, q := range fn.Params {
+			if q == prm {
+				pi = i
 			}
-			fa, ok := st.Addr.(*ssa.FieldAddr)
-			if !ok || namedOf(fa.X.Type()) != "connState" {
-				continue
+		}
+		sites := 0
+		for _, g := range c.P.allFuncs("server") {
+			for _, b := range g.Blocks {
+				for _, in := range b.Instrs {
+					if ci, ok := in.(ssa.CallInstruction); ok && callee(ci) == fn && pi >= 0 && pi < len(ci.Common().Args) {
+						sites++
+						if !strings.HasSuffix(canon(ci.Common().Args[pi]), ".DBs") {
+							return false
+						}
+					}
+				}
 			}
-			nStore++
-			// the stored db is m.DBs[idx]
-			u, _ := st.Val.(*ssa.UnOp)
-			var ia *ssa.IndexAddr
-			if u != nil {
-				ia, _ = u.X.(*ssa.IndexAddr)
+		}
+		return sites > 0
+	}
+	for _, sel := range c.P.allFuncs("server") {
+		p := c.newProver(sel)
+		for _, b := range sel.Blocks {
+			for _, in := range b.Instrs {
+				st, ok := in.(*ssa.Store)
+				if !ok {
+					continue
+				}
+				fa, ok := st.Addr.(*ssa.FieldAddr)
+				if !ok || namedOf(fa.X.Type()) != "connState" {
+					continue
+				}
+				// the stored db is m.DBs[idx]
+				u, _ := st.Val.(*ssa.UnOp)
+				var ia *ssa.IndexAddr
+				if u != nil {
+					ia, _ = u.X.(*ssa.IndexAddr)
+				}
+				if ia == nil {
+					if sel.Name() == "Select" {
+						nStore++
+						c.Add("R20s", fnName(sel), "the selected database is an element of the Manager's table", st.Pos(), false, "stored value "+canon(st.Val))
+					}
+					continue // a constructor storing the default database: R20i / R20o
+				}
+				nStore++
+				if !isManagerTable(sel, ia.X) {
+					c.Add("R20s", fnName(sel), "the selected database is an element of the Manager's table", st.Pos(), false, "stored value "+canon(st.Val))
+					continue
+				}
+				idx := p.lin(ia.Index)
+				ln := p.lenOf(ia.X)
+				inRange := p.ProveLE(lt{"0", 0}, idx, 0, st) && p.ProveLE(idx, ln, -1, st)
+				c.Add("R20s", fnName(sel), "selection store dominated by 0 <= idx < len(DBs)", st.Pos(), inRange, "index "+canon(ia.Index))
+				// exactness: what is known about idx at the store is no more than 0 <= idx <= len-1 (a test that rejects a
+				// configured index would make a tighter bound provable here)
+				exactHi := !p.ProveLE(idx, ln, -2, st)
+				exactLo := !p.ProveLE(lt{"0", 0}, idx, -1, st)
+				c.Add("R20s", fnName(sel), "the range test rejects exactly idx >= len(DBs) and idx < 0", st.Pos(), exactHi && exactLo, fmt.Sprintf("upper test exact=%v lower test exact=%v", exactHi, exactLo))
 			}
-			if ia == nil || !strings.HasSuffix(canon(ia.X), ".DBs") {
-				c.Add("R20s", fnName(sel), "the selected database is an element of the Manager's table", st.Pos(), false, "stored value "+canon(st.Val))
-				continue
-			}
-			idx := p.lin(ia.Index)
-			ln := p.lenOf(ia.X)
-			inRange := p.ProveLE(lt{"0", 0}, idx, 0, st) && p.ProveLE(idx, ln, -1, st)
-			c.Add("R20s", fnName(sel), "selection store dominated by 0 <= idx < len(DBs)", st.Pos(), inRange, "index "+canon(ia.Index))
-			// exactness: what is known about idx at the store is no more than 0 <= idx <= len-1 (a test that rejects a
-			// configured index would make a tighter bound provable here)
-			exactHi := !p.ProveLE(idx, ln, -2, st)
-			exactLo := !p.ProveLE(lt{"0", 0}, idx, -1, st)
-			c.Add("R20s", fnName(sel), "the range test rejects exactly idx >= len(DBs) and idx < 0", st.Pos(), exactHi && exactLo, fmt.Sprintf("upper test exact=%v lower test exact=%v", exactHi, exactLo))
 		}
 	}
 	c.Count("R20s_selection_stores", nStore)
